@@ -34,7 +34,9 @@ FIELD_KEYS = {
 RULE = ("a case is one history of 1-300 decoded records from 1-6 aircraft (DF17 and DF18 targets; identification, airborne and "
         "surface position, velocity subtypes 1-4, status, target state, operational status, other type codes, DF0/4/5/11/16, "
         "DF20/21 with BDS 1,0/1,7/2,0/2,1/3,0/4,0/4,4/5,0/6,0 payloads, undecodable noise) replayed through the real "
-        "update_snapshot, once interleaved and once per aircraft alone; values come from per-aircraft residue classes "
+        "update_snapshot, once interleaved and once per aircraft alone; four aircraft in ten join the history late, and 3 % of the steps are silences of "
+        "181-3700 s (longer than the position decoder trusts an old fix) after which one aircraft returns, another (a newcomer when there is one) reports, "
+        "and the first completes its position pair; values come from per-aircraft residue classes "
         "(altitude codes, squawk first digit, first call-sign letter, selected altitudes) so that a leaked value cannot match "
         "by accident; distinct = distinct (frame sequence) hashes; non-trivial = at least two aircraft with a record each")
 
